@@ -45,6 +45,13 @@ def run(tier, seed):
             break
         kind, ops, obs = srcprops.cancel_around_nak_case(cfg, data, k, reqs, m)
         hc.add_trace(kind, ops, obs, label=f"cancel after NAK@{k}+{m}", oracle=evprops.oracle_c12)
+    # the source file is missing for one call (a read fails, nothing is sent), is put back, then the user cancels
+    from harness.transfer import Cfg
+    for mode in (0, 1):
+        for k in (1, 2, 3, 4):
+            cfg = Cfg(mode=mode, closure=hc.rng.random() < 0.5, max_seg=hc.rng.choice([2, 4]), max_packet=64, cktype=hc.rng.choice([0, 2, 3]))
+            kind, ops, obs = srcprops.cancel_after_failed_read_case(cfg, bytes(hc.rng.getrandbits(8) for _ in range(13)), k)
+            hc.add_trace(kind, ops, obs, label=f"cancel after a failed read@{k}", oracle=evprops.oracle_c12)
     hc.correspondence(project=hcommon.proj_all_external, theorem="props/C12.v (correspondence source+dest, all external observables)")
     return hc.finish("two-handler transfers with link faults, cancels (right/wrong id), write rejections, several transactions per "
                      "handler + hostile single-handler streams (PDUs of every type with wrong ids/directions/modes in every step, "
